@@ -43,9 +43,11 @@ func RunSparseConst(c *core.Ctx) {
 	fail := func(op, failure, format string, args ...interface{}) {
 		c.Fail("model", "SparseConstVector|"+op+"|"+failure, format, args...)
 	}
-	c.Logf("v = NewSparseConstFloat64Vector(%v, %v, %d); model %v", idx, val, n, m)
+	et := t.Choose(7)
+	etName := []string{"float64", "float32", "int", "int64", "int32", "int16", "int8"}[et]
+	c.Logf("v = NewSparseConst<%s>Vector(%v, %v, %d); model %v", etName, idx, val, n, m)
 	var v ad.ConstVector
-	if pv, site := core.Try(func() { v = ad.NewSparseConstFloat64Vector(idx, val, n) }); pv != nil {
+	if pv, site := core.Try(func() { v = newSparseConst(et, idx, val, n) }); pv != nil {
 		c.Fail("no-panic", "SparseConstVector|panic-in:constructor|"+core.PanicClass(pv), "constructor panicked in %s: %v", site, pv)
 	}
 	type handle struct {
@@ -163,5 +165,48 @@ func RunSparseConst(c *core.Ctx) {
 		c.StateStr(fmt.Sprint(k, len(hs), h.off, h.n))
 	}
 	c.Nontriv = n >= 2 && len(idx) >= 1
-	c.Sample = map[string]interface{}{"container": "SparseConstFloat64Vector", "dim": n, "entries": len(idx), "ops": nops, "handles": len(hs)}
+	c.Sample = map[string]interface{}{"container": "SparseConst<" + etName + ">Vector", "dim": n, "entries": len(idx), "ops": nops, "handles": len(hs)}
+}
+
+func newSparseConst(et int, idx []int, val []float64, n int) ad.ConstVector {
+	ix := append([]int(nil), idx...)
+	switch et {
+	case 1:
+		v := make([]float32, len(val))
+		for i := range v {
+			v[i] = float32(val[i])
+		}
+		return ad.NewSparseConstFloat32Vector(ix, v, n)
+	case 2:
+		v := make([]int, len(val))
+		for i := range v {
+			v[i] = int(val[i])
+		}
+		return ad.NewSparseConstIntVector(ix, v, n)
+	case 3:
+		v := make([]int64, len(val))
+		for i := range v {
+			v[i] = int64(val[i])
+		}
+		return ad.NewSparseConstInt64Vector(ix, v, n)
+	case 4:
+		v := make([]int32, len(val))
+		for i := range v {
+			v[i] = int32(val[i])
+		}
+		return ad.NewSparseConstInt32Vector(ix, v, n)
+	case 5:
+		v := make([]int16, len(val))
+		for i := range v {
+			v[i] = int16(val[i])
+		}
+		return ad.NewSparseConstInt16Vector(ix, v, n)
+	case 6:
+		v := make([]int8, len(val))
+		for i := range v {
+			v[i] = int8(val[i])
+		}
+		return ad.NewSparseConstInt8Vector(ix, v, n)
+	}
+	return ad.NewSparseConstFloat64Vector(ix, append([]float64(nil), val...), n)
 }
